@@ -7,6 +7,7 @@ Line-protocol driver for C07 (ledger model). All ids are decimal Nat, all amount
   TXT from nonce gasLimit price intrinsic to value             -> inc <gas> <failed 0|1> | skip
   TXK from nonce gasLimit price intrinsic to value failed gasUsed refund burnt [a b x]*   (observed EVM outcome)
   TXS from nonce gasLimit price intrinsic decodeOK kind val value aux a b c d
+  EVID validator                                               -> ok | crash   (accepted double-sign evidence, before END)
   END coinbase [d v]*                                          -> ok <lost-by-stale-settlement> <lost-with-removed-validators> | crash
   DUMP                                                         -> canonical ledger line (same format as the harness)
   TOTAL                                                        -> the conserved quantity
@@ -100,6 +101,12 @@ def step (d : DS) (line : String) : DS × String :=
                           a := a.toNat, b := b.toNat, c := c.toNat, d := dd.toNat, nonce := (hd.getD 1 0).toNat }
         doTx d (mkTx hd (.staking (ok != 0) pt))
       | _ => (d, "bad-op")
+    | none => (d, "bad-op")
+  | ["EVID", a] =>
+    match nat? a with
+    | some a => match evidenceStep d.p d.s a with
+      | (s, .ok) => ({ d with s := s }, "ok")
+      | (s, .crash) => ({ d with s := s }, "crash")
     | none => (d, "bad-op")
   | "END" :: rest =>
     match rest.mapM nat? with
